@@ -2,6 +2,7 @@
 // through the real note-update path, tap on registers 0x40..0x4F).
 #include "player.hpp"
 #include "enumx.hpp"
+#include <set>
 
 namespace {
 
@@ -101,6 +102,33 @@ int main(int argc, char **argv) {
                 memcpy(prev, tl, 4); } }
         if(!range_ok(I, o, ctx)) return;
         o.units = 3 * 127; if(i % 11 == 0) o.sample = ctx; o.nontrivial = true; };
+      fams.push_back(F); }
+    { // auto-arpeggio: two notes time-share one chip channel; every re-trigger must bring the levels of the note that is keyed on, so a note muted by CC7/CC11 = 0 stays silent whoever its partner is
+      en::Family F; F.name = "arpeggio_shared_channel"; F.count = 5 * 3 * 2 * 2; F.chunk = 1; F.budget_s = 60; F.describe = "auto-arpeggio on, one chip filled by six notes of MIDI channel 0 at full volume, a seventh note of the same timbre on MIDI channel 1 whose {CC7, CC11} is 0 (or the roles swapped) shares a chip channel; 600 ms of audio in 5 ms steps; at every key-on of the muted note (recognised by its F-number) the carriers must be at 127; 5 volume models x algorithm {7,4,0}";
+      F.run = [](uint64_t i, en::CaseOut &o) { int model = 1 + (int)(i % 5); static const int AL[] = {7, 4, 0}; int alg = AL[(i / 5) % 3]; int ctl = (int)((i / 15) % 2) ? 11 : 7; bool swapped = (i / 30) != 0;
+        std::string ctx = std::string(" [model ") + MODEL[model] + ", algorithm " + std::to_string(alg) + ", CC" + std::to_string(ctl) + " = 0 on the " + (swapped ? "six-note" : "single-note") + " channel]"; char b[300];
+        // F-number of the muted key, from a reference instance
+        auto fnum_of = [&](int key, unsigned &a4, unsigned &a0) { pl::Instance R; if(!setup(R, model, alg, 20, 0, 0)) return false; opn2_rt_noteOn(R.dev, 0, (OPN2_UInt8)key, 100); a4 = R.tap.chips[0].regs[0][0xA4]; a0 = R.tap.chips[0].regs[0][0xA0]; return true; };
+        pl::Instance I; if(!setup(I, model, alg, 20, 0, 0)) { o.fail("C11/harness", "setup"); return; } OPN2_MIDIPlayer *d = I.dev;
+        { OPN2_BankId mid = {0, 0, 0}; OPN2_Bank mb; opn2_getBank(d, &mid, 0, &mb); OPN2_Instrument ins = mk_ins(alg, 20); ins.delay_on_ms = 40000; opn2_setInstrument(d, &mb, 0, &ins); }
+        opn2_setAutoArpeggio(d, 1);
+        int muted_ch = swapped ? 0 : 1, loud_ch = swapped ? 1 : 0; opn2_rt_controllerChange(d, (OPN2_UInt8)muted_ch, (OPN2_UInt8)ctl, 0);
+        int keys0[6] = {40, 42, 44, 46, 48, 50}; for(int k : keys0) opn2_rt_noteOn(d, 0, (OPN2_UInt8)k, 100);
+        opn2_rt_noteOn(d, 1, 70, 100);
+        std::set<std::pair<unsigned, unsigned>> muted_f; if(swapped) { for(int k : keys0) { unsigned a4, a0; if(!fnum_of(k, a4, a0)) { o.fail("C11/harness", "ref"); return; } muted_f.insert({a4, a0}); } } else { unsigned a4, a0; if(!fnum_of(70, a4, a0)) { o.fail("C11/harness", "ref"); return; } muted_f.insert({a4, a0}); }
+        (void)loud_ch;
+        I.tap.logging = true; I.tap.log.clear(); unsigned shadow[2][256]; memset(shadow, 0, sizeof shadow); for(int p = 0; p < 2; p++) for(int r = 0; r < 256; r++) shadow[p][r] = I.tap.chips[0].regs[p][r];
+        static short buf[1024]; int muted_keyons = 0, loud_keyons = 0;
+        for(int step = 0; step < 120 && !o.bad; step++) { opn2_generate(d, 441, buf);
+            for(auto &w : I.tap.log) { if(w.kind || w.chip != 0) continue; if(w.reg == 0x28 && w.port == 0) { if((w.val & 0xF0) == 0) continue; unsigned cc = w.val & 3, port = (w.val & 4) ? 1 : 0; unsigned a4 = shadow[port][0xA4 + cc], a0 = shadow[port][0xA0 + cc];
+                    if(muted_f.count({a4, a0})) { muted_keyons++; for(int op = 0; op < 4; op++) if(CARRIER[alg][op]) { unsigned tl = shadow[port][0x40 + 4 * op + cc] & 0x7F; if(tl != 127) { snprintf(b, sizeof b, "key-on of the muted note on chip channel %u with carrier slot %d at total level %u (its CC%d is 0: 127 expected)", port * 3 + cc, op, tl, ctl); o.fail("C11/zero-not-silent/arpeggio-shared-channel", b + ctx); break; } } }
+                    else loud_keyons++; }
+                else shadow[w.port & 1][w.reg & 0xFF] = w.val; }
+            I.tap.log.clear(); }
+        if(o.bad) return;
+        if(muted_keyons < 2 || loud_keyons < 2) { snprintf(b, sizeof b, "the channel was not time-shared as intended (%d key-ons of the muted note, %d of the others)", muted_keyons, loud_keyons); o.fail("C11/harness-arpeggio-not-exercised", b + ctx); return; }
+        if(!range_ok(I, o, ctx)) return;
+        o.units = (uint64_t)(muted_keyons + loud_keyons); if(i % 7 == 0) o.sample = ctx + " " + std::to_string(muted_keyons) + " key-ons of the muted note"; o.nontrivial = true; };
       fams.push_back(F); }
     { // controls changed while the note sounds: the level written by the refresh must be the level a fresh note gets under the same settings
       static const int VELS_Q[] = {1, 64, 127}, VELS_T[] = {1, 16, 32, 64, 100, 126, 127}; static const int ALGS_Q[] = {7, 4, 0};
